@@ -97,19 +97,33 @@ theorem pySlice_nonneg (b : Bytes) {lo hi : Int} (h1 : 0 ≤ lo) (h2 : 0 ≤ hi)
 theorem pyDrop_nonneg (b : Bytes) {i : Int} (h : 0 ≤ i) : pyDrop b i = b.drop i.toNat := by
   unfold pyDrop; simp [h]
 
-/-- the emitted program's state `σ` mirrors the decoder state `st` after the members `pre` -/
-structure Sim (σ : PyState) (st : DecState) (pre : List Field) : Prop where
+/-- the emitted program's state `σ` mirrors the decoder state `st` after the members `hid ++ pre`: `pre` are the
+    members read in the current scope (they have locals), `hid` the members read by the base class's
+    `_deserialize` (in the decoder's environment, but not in scope) -/
+structure Sim (σ : PyState) (st : DecState) (hid pre : List Field) : Prop where
   buf : σ.buffer = st.buf
   loc : ∀ x ∈ pre, ∀ v, Val.get st.env x.name = some v → σ.get (localName x) = some v
   nonneg : ∀ x ∈ pre, x.kind.isBoundSize = true → ∀ i, Val.get st.env x.name = some (.int i) → 0 ≤ i
-  names : ∀ nv ∈ st.env, ∃ x ∈ pre, x.name = nv.1
+  names : ∀ nv ∈ st.env, ∃ x ∈ hid ++ pre, x.name = nv.1
   has : ∀ x ∈ pre, (Val.get st.env x.name).isSome = true
 
+theorem lookupField_eq_none {fs : List Field} {n : String} (h : ∀ x ∈ fs, x.name ≠ n) : lookupField fs n = none := by
+  cases hl : lookupField fs n with
+  | none => rfl
+  | some g => obtain ⟨hm, hn⟩ := lookupField_some hl; exact absurd hn (h g hm)
+
+/-- a name that is not a hidden member's resolves among the members in scope -/
+theorem lookupField_hid {hid pre : List Field} {n : String} (hvis : ∀ x ∈ hid, x.name ≠ n) :
+    lookupField (hid ++ pre) n = lookupField pre n :=
+  lookupField_append_right (lookupField_eq_none hvis)
+
 /-- a member referenced by name: its integer local -/
-theorem Sim.int {σ : PyState} {st : DecState} {pre : List Field} (h : Sim σ st pre) {n : String} {p : FK → Bool}
-    (href : refOk pre n p = true) {i : Int} (hi : envInt st.env n = .ok i) :
+theorem Sim.int {σ : PyState} {st : DecState} {hid pre : List Field} (h : Sim σ st hid pre) {n : String} {p : FK → Bool}
+    (hvis : ∀ x ∈ hid, x.name ≠ n)
+    (href : refOk (hid ++ pre) n p = true) {i : Int} (hi : envInt st.env n = .ok i) :
     ∃ gk, gk ∈ pre ∧ gk.name = n ∧ p gk.kind = true ∧ σ.getInt (localName gk) = .ok i := by
   unfold refOk at href
+  rw [lookupField_hid hvis] at href
   cases hl : lookupField pre n with
   | none => simp [hl] at href
   | some gk =>
@@ -130,9 +144,10 @@ variable {S : Schema} {T : String → Bytes → Bytes} {r : Rec} {d : StructDef}
 
 /-- what `decPayload` reads for a member, the emitted load expression reads too, and the emitted slice bound
     is the advance -/
-theorem payload_sim {σ : PyState} {st : DecState} {pre : List Field} (hS : Sim σ st pre)
+theorem payload_sim {σ : PyState} {st : DecState} {hid pre : List Field} (hS : Sim σ st hid pre)
     (hnn : ∀ ty b v, r.dec ty b = .ok v → v ≠ .none)
-    {f : Field} (hfresh : ∀ x ∈ pre, localName x ≠ localName f) {isLast : Bool} (hwf : wfFieldAt S d pre f isLast = true) (hg : wfgdKind f = true)
+    {f : Field} (hfresh : ∀ x ∈ pre, localName x ≠ localName f) (hvis : ∀ n ∈ refsOf f, ∀ x ∈ hid, x.name ≠ n)
+    {isLast : Bool} (hwf : wfFieldAt S d (hid ++ pre) f isLast = true) (hg : wfgdKind f = true)
     {src : BufSrc} (hsrc1 : ∀ ty l, f.kind = .ref ty (some l) → src = .limited l)
     (hsrc2 : ∀ ty, f.kind = .ref ty none → src = .var "buffer")
     {v : Val} {adv : Nat} (hpay : decPayload S T r st.env f st.buf = .ok (v, adv)) :
@@ -193,7 +208,7 @@ theorem payload_sim {σ : PyState} {st : DecState} {pre : List Field} (hS : Sim 
       obtain ⟨n, hn, hpay⟩ := bind_eq_ok.mp hpay
       obtain ⟨hd, hadv⟩ := core _ hpay
       refine ⟨?_, hadv⟩
-      obtain ⟨gk, hgm, hgn, hgk, hgi⟩ := hS.int hwf hn
+      obtain ⟨gk, hgm, hgn, hgk, hgi⟩ := hS.int (hvis _ (by simp [refsOf, hk])) hwf hn
       obtain ⟨w', s', hkk⟩ := isSizeOf_of hgk
       have h0 : 0 ≤ n := hS.nonneg gk hgm (by rw [hkk]; rfl) n (by rw [hgn]; exact envInt_ok hn)
       have hloc : localName gk = l := by rw [← hgn]; exact localName_raw (by rw [hgn]; exact hg.2)
@@ -207,7 +222,7 @@ theorem payload_sim {σ : PyState} {st : DecState} {pre : List Field} (hS : Sim 
     · rename_i hle
       simp only [Except.ok.injEq, Prod.mk.injEq] at hpay
       obtain ⟨rfl, rfl⟩ := hpay
-      obtain ⟨gk, hgm, hgn, hgk, hgi⟩ := hS.int hwf hn
+      obtain ⟨gk, hgm, hgn, hgk, hgi⟩ := hS.int (hvis _ (by simp [refsOf, hk])) hwf hn
       obtain ⟨w', s', a', hkk⟩ := isCount_of hgk
       have h0 : 0 ≤ n := hS.nonneg gk hgm (by rw [hkk]; rfl) n (by rw [hgn]; exact envInt_ok hn)
       have hraw := rawNameOk_iff.mp hg.2
@@ -249,7 +264,7 @@ theorem payload_sim {σ : PyState} {st : DecState} {pre : List Field} (hS : Sim 
         obtain ⟨ss, hss, hpay⟩ := bind_eq_ok.mp hpay
         simp only [Except.ok.injEq, Prod.mk.injEq] at hpay
         obtain ⟨rfl, rfl⟩ := hpay
-        obtain ⟨gk, hgm, hgn, -, hgi⟩ := hS.int href hn
+        obtain ⟨gk, hgm, hgn, -, hgi⟩ := hS.int (hvis _ (by simp [refsOf, hk])) href hn
         have hloc : localName gk = cf := by rw [← hgn]; exact localName_raw (by rw [hgn]; exact hg.2)
         rw [hloc] at hgi
         refine ⟨?_, ?_⟩
@@ -265,7 +280,7 @@ theorem payload_sim {σ : PyState} {st : DecState} {pre : List Field} (hS : Sim 
       · simp [bind, Except.bind, throw, throwThe, MonadExceptOf.throw] at hpay
       · simp only [Except.ok.injEq, Prod.mk.injEq] at hpay
         obtain ⟨rfl, rfl⟩ := hpay
-        obtain ⟨gk, hgm, hgn, hgk, hgi⟩ := hS.int href hn
+        obtain ⟨gk, hgm, hgn, hgk, hgi⟩ := hS.int (hvis _ (by simp [refsOf, hk])) href hn
         obtain ⟨w', s', hkk⟩ := isByteSize_of hgk
         have h0 : 0 ≤ n := hS.nonneg gk hgm (by rw [hkk]; rfl) n (by rw [hgn]; exact envInt_ok hn)
         have hloc : localName gk = sf := by rw [← hgn]; exact localName_raw (by rw [hgn]; exact hg.2)
@@ -293,12 +308,25 @@ theorem payload_sim {σ : PyState} {st : DecState} {pre : List Field} (hS : Sim 
         obtain ⟨l, hl, hpay⟩ := bind_eq_ok.mp hpay
         split at hpay
         · simp [bind, Except.bind, throw, throwThe, MonadExceptOf.throw] at hpay
-        · obtain ⟨ss, hss, hpay⟩ := bind_eq_ok.mp hpay
-          simp only [Except.ok.injEq, Prod.mk.injEq] at hpay
-          obtain ⟨rfl, rfl⟩ := hpay
-          refine ⟨?_, ?_⟩
-          · simp [LoadExpr.eval, hbuf, hl, bind, Except.bind]
-          · simp [AdvExpr.eval, hgetself, hss, bind, Except.bind, arraySize_zero]
+        · obtain ⟨sorted, hsorted, hpay⟩ := bind_eq_ok.mp hpay
+          cases sorted with
+          | false => simp [bind, Except.bind, throw, throwThe, MonadExceptOf.throw] at hpay
+          | true =>
+            simp only [Bool.not_true, Bool.false_eq_true, if_false] at hpay
+            obtain ⟨ss, hss, hpay⟩ := bind_eq_ok.mp hpay
+            simp only [Except.ok.injEq, Prod.mk.injEq] at hpay
+            obtain ⟨rfl, rfl⟩ := hpay
+            refine ⟨?_, ?_⟩
+            · simp only [show ((0 : Nat) != 0) = false from rfl, Bool.false_eq_true, if_false, LoadExpr.eval, hbuf, hl,
+                bind, Except.bind]
+              cases key with
+              | none => rfl
+              | some k =>
+                obtain ⟨keys, hkeys, hasc⟩ := bind_eq_ok.mp hsorted
+                simp only [Except.ok.injEq] at hasc
+                simp only [hkeys, hasc]
+                rfl
+            · simp [AdvExpr.eval, hgetself, hss, bind, Except.bind, arraySize_zero]
       · simp only [hal, not_false_eq_true, if_true] at hpay
         obtain ⟨l, hl, hpay⟩ := bind_eq_ok.mp hpay
         split at hpay
@@ -349,8 +377,8 @@ theorem PyState.get_setBuf (σ : PyState) (b : String) (x : Bytes) (n : String) 
   split <;> rfl
 
 /-- assigning a local that no processed member uses keeps the relation -/
-theorem Sim.set_fresh {σ : PyState} {st : DecState} {pre : List Field} (h : Sim σ st pre) {l : String} (v : Val)
-    (hl : ∀ x ∈ pre, localName x ≠ l) : Sim (σ.set l v) st pre := by
+theorem Sim.set_fresh {σ : PyState} {st : DecState} {hid pre : List Field} (h : Sim σ st hid pre) {l : String} (v : Val)
+    (hl : ∀ x ∈ pre, localName x ≠ l) : Sim (σ.set l v) st hid pre := by
   refine ⟨h.buf, ?_, h.nonneg, h.names, h.has⟩
   intro x hx v' hv'
   rw [PyState.get_set]
